@@ -325,4 +325,32 @@ def specFloat (s : Bytes) : Option Dec :=
     | some d, some x => some ⟨d.m, d.e + x⟩
     | _, _ => none
 
+/-! ### `float_to_strings`: the shape of its output (Python `repr` of a finite double) -/
+
+/-- non-empty run of digits -/
+def digitRun (s : Bytes) : Bool := !s.isEmpty && allDigits s
+
+/-- `repr(x)` for a finite double is `[-]D+.D+` or `[-]D+[.D+]e(+|-)DD+`: a text of the numeral grammar
+(`specFloat` accepts it) that never starts with `'+'`, always shows a `'.'` or an exponent, and writes the
+exponent with a sign and at least two digits -/
+def reprGrammar (t : Bytes) : Bool :=
+  (specFloat t).isSome &&
+  (let body := if t.head? = some 45 then t.drop 1 else t
+   match findByte 101 body with
+   | none =>
+     (match findByte 46 body with
+      | some c => digitRun (body.take c) && digitRun (body.drop (c + 1))
+      | none => false)
+   | some k =>
+     let mant := body.take k
+     let ex := body.drop (k + 1)
+     (match findByte 46 mant with
+      | some c => digitRun (mant.take c) && digitRun (mant.drop (c + 1))
+      | none => digitRun mant) &&
+     (ex.head? == some 43 || ex.head? == some 45) && digitRun (ex.drop 1) && decide (2 ≤ (ex.drop 1).length))
+
+/-- `str_to_float(float_to_strings(x))` at the level of the logic: the produced text, if it has the
+`repr` shape, evaluated by the parser's logic -/
+def reprParse (t : Bytes) : Option Dec := if reprGrammar t then strToFloatRow t else none
+
 end C18
